@@ -58,6 +58,11 @@ Definition oc_receiver (c : ocase) : res (rkind * view) :=
   match oc_kind c with
   | 0 => Ok (KOwned, parent)
   | 2 => v <- view_of KOwned true parent s0 s1 e0 e1 ;; Ok (KViewMut, v)
+  (* nested mutable windows: cut from an outer mutable view narrower than the parent *)
+  | 4 => o <- view_of KOwned true parent 1 1 (N.of_nat (oc_C c)) (N.of_nat (oc_R c)) ;;
+         v <- view_of KViewMut true o s0 s1 e0 e1 ;; Ok (KViewMut, v)
+  | 5 => o <- view_of KOwned true parent 0 0 (N.of_nat (oc_C c - 1)) (N.of_nat (oc_R c - 1)) ;;
+         v <- view_of KViewMut true o s0 s1 e0 e1 ;; Ok (KViewMut, v)
   | _ => v <- view_of KOwned true parent s0 s1 e0 e1 ;; Ok (KThird, v)
   end.
 
